@@ -97,10 +97,12 @@ class FakeTransport : public Transport {
   bool pending() const { return !m_rx.empty(); }
   std::map<vector<uint8_t>, vector<uint8_t>> m_answers;
   vector<vector<uint8_t>> m_written;   // every complete master telegram seen (unescaped, without CRC)
+  vector<vector<uint8_t>> m_writtenAns;  // parallel to m_written: the slave data DD.. answered to it (empty if none)
   size_t m_writtenBytes = 0;           // every byte ebusd asked the transport to write
   size_t m_idleSyn = 0;
   bool m_dynamic = false;              // first answer byte counts the telegrams answered for that id
   std::map<vector<uint8_t>, int> m_count;
+  void (*m_onTelegram)(const vector<uint8_t>& telegram) = nullptr;  // tap, called in the writing thread for every complete master telegram
 
  private:
   static void esc(std::deque<uint8_t>* q, uint8_t b) {
@@ -120,6 +122,8 @@ class FakeTransport : public Transport {
     MasterSymbolString m; for (size_t i = 0; i + 1 < u.size(); i++) m.push_back(u[i]);
     bool crcOk = m.calcCrc() == u.back();
     m_written.push_back(vector<uint8_t>(u.begin(), u.end() - 1));
+    m_writtenAns.push_back(vector<uint8_t>());
+    if (m_onTelegram) m_onTelegram(m_written.back());
     m_phase = 1;
     uint8_t zz = u[1];
     if (zz == BROADCAST) return;
@@ -138,6 +142,7 @@ class FakeTransport : public Transport {
       }
       if (n == 0) break;
     }
+    m_writtenAns.back() = dd;
     SlaveSymbolString s; s.push_back(static_cast<symbol_t>(dd.size())); for (uint8_t d : dd) s.push_back(d);
     for (size_t i = 0; i < s.size(); i++) esc(&m_rx, s[i]);
     esc(&m_rx, s.calcCrc());
